@@ -1,5 +1,5 @@
 From Coq Require Import Extraction ExtrOcamlBasic.
-From Rumqtt Require Import Client.State4 Client.State4Orig Client.Run4 Client.State5 Client.State5Orig Client.Loop.
+From Rumqtt Require Import Client.State4 Client.State4Orig Client.Run4 Client.State5 Client.State5Orig Client.Loop Client.KeepAlive.
 Extraction Language OCaml.
 Definition v4_init := State4.init.
 Definition v4_step := State4.step.
@@ -29,4 +29,9 @@ Definition l_connected := Loop.connected.
 Definition l_wire := Loop.wire.
 Definition l_yielded := Loop.yielded.
 Definition v4_events := State4.events.
-Extraction "client_model.ml" v4_init v4_step v4_step_orig v4_k29 v4_k30 v4_contract v4_drain v4_inflight v4_collision v5_init v5_step v5_step_orig v5_drain v5_inflight v5_collision l_init l_step l_step_orig l_take_enabled l_take_enabled_orig l_clean l_clean_orig l_st l_pending l_connected l_wire l_yielded v4_events.
+Definition k_init := KeepAlive.kinit.
+Definition k_step := KeepAlive.kstep.
+Definition k_step_v5_orig := KeepAlive.kstep_v5_orig.
+Definition k_deadline := KeepAlive.deadline.
+Definition k_poll_connect := KeepAlive.poll_connect.
+Extraction "client_model.ml" v4_init v4_step v4_step_orig v4_k29 v4_k30 v4_contract v4_drain v4_inflight v4_collision v5_init v5_step v5_step_orig v5_drain v5_inflight v5_collision l_init l_step l_step_orig l_take_enabled l_take_enabled_orig l_clean l_clean_orig l_st l_pending l_connected l_wire l_yielded v4_events k_init k_step k_step_v5_orig k_deadline k_poll_connect.
